@@ -1392,6 +1392,12 @@ class Process(StateMachine, persistence.Savable, metaclass=ProcessStateMachineMe
                 # Everything nominal so transition to the next state
                 self.transition_to(next_state)
 
+            # A pause or kill requested while the above was under way (typically by a listener that was notified
+            # of the new state) is carried out right away: this is the step boundary it has been waiting for.
+            action = self._interrupt_action
+            if action is not None and not action.done() and not self.has_terminated():
+                action.run(None)
+
         finally:
             self._stepping = False
             # Drop the interrupt action once it has been executed (or withdrawn). An action that is still pending
